@@ -1241,7 +1241,10 @@ class Mailbox:
         )
         self.uids.extend(new_uids)
         if self.uids:
-            self.next_uid = self.uids[-1] + 1
+            # NOTE: Never lower it: the highest UID ever assigned may belong
+            #       to a message that has been expunged since.
+            #
+            self.next_uid = max(self.next_uid, self.uids[-1] + 1)
         self._rebuild_index_dicts()
 
         if len(self.uids) != len(self.msg_keys):
